@@ -24,6 +24,8 @@ import Fir.Proofs.SimdVertU16Lemmas
 import Fir.Proofs.SimdU8x1Lemmas
 import Fir.Proofs.SimdU8x2Lemmas
 import Fir.Proofs.SimdU16x1Lemmas
+import Fir.Proofs.SimdU16x4Lemmas
+import Fir.Proofs.SimdU16x2Lemmas
 
 namespace Fir.C02
 open Fir
@@ -489,6 +491,49 @@ theorem u16x1_sse4_four_rows_masks :
 theorem u16x1_sse4_source_as_modelled :
     Fir.Gen.u16x1_sse4_one_row_skeleton = "normalizer.precision() ; _mm_set1_epi64x(0) ; chunks_exact(8) ; remainder() ; _mm_set_epi64x(k[1] as i64, k[0] as i64) ; _mm_set_epi64x(k[3] as i64, k[2] as i64) ; _mm_set_epi64x(k[5] as i64, k[4] as i64) ; _mm_set_epi64x(k[7] as i64, k[6] as i64) ; simd_utils::loadu_si128(src_row, x) ; _mm_shuffle_epi8(source, l01_shuffle) ; _mm_add_epi64(ll_sum, _mm_mul_epi32(l_i64x2, coeff01_i64x2)) ; _mm_shuffle_epi8(source, l23_shuffle) ; _mm_add_epi64(ll_sum, _mm_mul_epi32(l_i64x2, coeff23_i64x2)) ; _mm_shuffle_epi8(source, l45_shuffle) ; _mm_add_epi64(ll_sum, _mm_mul_epi32(l_i64x2, coeff45_i64x2)) ; _mm_shuffle_epi8(source, l67_shuffle) ; _mm_add_epi64(ll_sum, _mm_mul_epi32(l_i64x2, coeff67_i64x2)) ; chunks_exact(4) ; remainder() ; _mm_set_epi64x(k[1] as i64, k[0] as i64) ; _mm_set_epi64x(k[3] as i64, k[2] as i64) ; simd_utils::loadl_epi64(src_row, x) ; _mm_shuffle_epi8(source, l01_shuffle) ; _mm_add_epi64(ll_sum, _mm_mul_epi32(l_i64x2, coeff01_i64x2)) ; _mm_shuffle_epi8(source, l23_shuffle) ; _mm_add_epi64(ll_sum, _mm_mul_epi32(l_i64x2, coeff23_i64x2)) ; chunks_exact(2) ; remainder() ; _mm_set_epi64x(k[1] as i64, k[0] as i64) ; simd_utils::loadl_epi32(src_row, x) ; _mm_shuffle_epi8(source, l01_shuffle) ; _mm_add_epi64(ll_sum, _mm_mul_epi32(l_i64x2, coeff01_i64x2)) ; first() ; _mm_set_epi64x(0, k as i64) ; get_unchecked(x) ; _mm_set_epi64x(0, pixel) ; _mm_add_epi64(ll_sum, _mm_mul_epi32(source, coeff01_i64x2)) ; _mm_storeu_si128(ll_buf.as_mut_ptr() as *mut __m128i, ll_sum) ; normalizer.clip(ll_buf[0] + ll_buf[1] + half_error)" ∧
     Fir.Gen.u16x1_sse4_four_rows_skeleton = "normalizer.precision() ; _mm_set1_epi64x(0) ; chunks_exact(8) ; remainder() ; _mm_set_epi64x(k[1] as i64, k[0] as i64) ; _mm_set_epi64x(k[3] as i64, k[2] as i64) ; _mm_set_epi64x(k[5] as i64, k[4] as i64) ; _mm_set_epi64x(k[7] as i64, k[6] as i64) ; simd_utils::loadu_si128(src_rows[i], x) ; _mm_shuffle_epi8(source, l0l1_shuffle) ; _mm_add_epi64(sum, _mm_mul_epi32(l0l1_i64x2, coeff01_i64x2)) ; _mm_shuffle_epi8(source, l2l3_shuffle) ; _mm_add_epi64(sum, _mm_mul_epi32(l2l3_i64x2, coeff23_i64x2)) ; _mm_shuffle_epi8(source, l4l5_shuffle) ; _mm_add_epi64(sum, _mm_mul_epi32(l4l5_i64x2, coeff45_i64x2)) ; _mm_shuffle_epi8(source, l6l7_shuffle) ; _mm_add_epi64(sum, _mm_mul_epi32(l6l7_i64x2, coeff67_i64x2)) ; chunks_exact(4) ; remainder() ; _mm_set_epi64x(k[1] as i64, k[0] as i64) ; _mm_set_epi64x(k[3] as i64, k[2] as i64) ; simd_utils::loadl_epi64(src_rows[i], x) ; _mm_shuffle_epi8(source, l0l1_shuffle) ; _mm_add_epi64(sum, _mm_mul_epi32(l0l1_i64x2, coeff01_i64x2)) ; _mm_shuffle_epi8(source, l2l3_shuffle) ; _mm_add_epi64(sum, _mm_mul_epi32(l2l3_i64x2, coeff23_i64x2)) ; chunks_exact(2) ; remainder() ; _mm_set_epi64x(k[1] as i64, k[0] as i64) ; simd_utils::loadl_epi32(src_rows[i], x) ; _mm_shuffle_epi8(source, l0l1_shuffle) ; _mm_add_epi64(ll_sum[i], _mm_mul_epi32(l_i64x2, coeff01_i64x2)) ; first() ; _mm_set_epi64x(0, k as i64) ; get_unchecked(x) ; _mm_set_epi64x(0, pixel) ; _mm_add_epi64(ll_sum[i], _mm_mul_epi32(source, coeff01_i64x2)) ; _mm_storeu_si128(ll_buf.as_mut_ptr() as *mut __m128i, ll_sum[i]) ; normalizer.clip(ll_buf.iter().sum::<i64>() + half_error)" := by
+  constructor <;> rfl
+
+/-! ### RGBA16: the SSE4.1 horizontal kernels of U16x4 (src/convolution/u16x4/sse4.rs)
+
+    Two accumulators `[R, G]` and `[B, A]` of 64-bit lanes started at `1 << (precision - 1)`, two pixels per load, components
+    shuffled into the low halves of the lanes (masks from the source), `_mm_mul_epi32` with `_mm_set1_epi64x(k as i64)`,
+    `_mm_add_epi64`; a last single coefficient; each lane through the portable `Normalizer32::clip`. -/
+
+theorem u16x4_sse4_eq_portable (p : Nat) (row : List Int) (start : Nat) (ks : List Int) :
+    Fir.SimdU16x4.pixel p row start ks
+      = [clip16 (2 ^ (p - 1) + Fir.SimdU16x4.dotC16 row 0 ks start) p, clip16 (2 ^ (p - 1) + Fir.SimdU16x4.dotC16 row 1 ks start) p,
+         clip16 (2 ^ (p - 1) + Fir.SimdU16x4.dotC16 row 2 ks start) p, clip16 (2 ^ (p - 1) + Fir.SimdU16x4.dotC16 row 3 ks start) p] :=
+  Fir.Proofs.U16x4.pixel_eq_portable p row start ks
+
+theorem u16x4_sse4_four_rows_masks :
+    Fir.Gen.u16x4_sse4_four_rg0 = Fir.Gen.u16x4_sse4_rg0 ∧ Fir.Gen.u16x4_sse4_four_rg1 = Fir.Gen.u16x4_sse4_rg1 ∧
+    Fir.Gen.u16x4_sse4_four_ba0 = Fir.Gen.u16x4_sse4_ba0 ∧ Fir.Gen.u16x4_sse4_four_ba1 = Fir.Gen.u16x4_sse4_ba1 := by
+  refine ⟨?_, ?_, ?_, ?_⟩ <;> decide
+
+theorem u16x4_sse4_source_as_modelled :
+    Fir.Gen.u16x4_sse4_one_row_skeleton = "normalizer.precision() ; _mm_set1_epi64x(half_error) ; _mm_set1_epi64x(half_error) ; chunks_exact(2) ; remainder() ; _mm_set1_epi64x(k[0] as i64) ; _mm_set1_epi64x(k[1] as i64) ; simd_utils::loadu_si128(src_row, x) ; _mm_shuffle_epi8(source, rg0_shuffle) ; _mm_add_epi64(rg_sum, _mm_mul_epi32(rg_i64x2, coeff0_i64x2)) ; _mm_shuffle_epi8(source, rg1_shuffle) ; _mm_add_epi64(rg_sum, _mm_mul_epi32(rg_i64x2, coeff1_i64x2)) ; _mm_shuffle_epi8(source, ba0_shuffle) ; _mm_add_epi64(ba_sum, _mm_mul_epi32(ba_i64x2, coeff0_i64x2)) ; _mm_shuffle_epi8(source, ba1_shuffle) ; _mm_add_epi64(ba_sum, _mm_mul_epi32(ba_i64x2, coeff1_i64x2)) ; first() ; _mm_set1_epi64x(k as i64) ; simd_utils::loadl_epi64(src_row, x) ; _mm_shuffle_epi8(source, rg0_shuffle) ; _mm_add_epi64(rg_sum, _mm_mul_epi32(rg_i64x2, coeff0_i64x2)) ; _mm_shuffle_epi8(source, ba0_shuffle) ; _mm_add_epi64(ba_sum, _mm_mul_epi32(ba_i64x2, coeff0_i64x2)) ; _mm_storeu_si128(rg_buf.as_mut_ptr() as *mut __m128i, rg_sum) ; _mm_storeu_si128(ba_buf.as_mut_ptr() as *mut __m128i, ba_sum) ; normalizer.clip(rg_buf[0]) ; normalizer.clip(rg_buf[1]) ; normalizer.clip(ba_buf[0]) ; normalizer.clip(ba_buf[1])" ∧
+    Fir.Gen.u16x4_sse4_four_rows_skeleton = "normalizer.precision() ; _mm_set1_epi64x(half_error) ; _mm_set1_epi64x(half_error) ; chunks_exact(2) ; remainder() ; _mm_set1_epi64x(k[0] as i64) ; _mm_set1_epi64x(k[1] as i64) ; simd_utils::loadu_si128(src_rows[i], x) ; _mm_shuffle_epi8(source, rg0_shuffle) ; _mm_add_epi64(sum, _mm_mul_epi32(rg_i64x2, coeff0_i64x2)) ; _mm_shuffle_epi8(source, rg1_shuffle) ; _mm_add_epi64(sum, _mm_mul_epi32(rg_i64x2, coeff1_i64x2)) ; _mm_shuffle_epi8(source, ba0_shuffle) ; _mm_add_epi64(sum, _mm_mul_epi32(ba_i64x2, coeff0_i64x2)) ; _mm_shuffle_epi8(source, ba1_shuffle) ; _mm_add_epi64(sum, _mm_mul_epi32(ba_i64x2, coeff1_i64x2)) ; first() ; _mm_set1_epi64x(k as i64) ; simd_utils::loadl_epi64(src_rows[i], x) ; _mm_shuffle_epi8(source, rg0_shuffle) ; _mm_add_epi64(rg_sum[i], _mm_mul_epi32(rg_i64x2, coeff0_i64x2)) ; _mm_shuffle_epi8(source, ba0_shuffle) ; _mm_add_epi64(ba_sum[i], _mm_mul_epi32(ba_i64x2, coeff0_i64x2)) ; _mm_storeu_si128(rg_buf.as_mut_ptr() as *mut __m128i, rg_sum[i]) ; _mm_storeu_si128(ba_buf.as_mut_ptr() as *mut __m128i, ba_sum[i]) ; normalizer.clip(rg_buf[0]) ; normalizer.clip(rg_buf[1]) ; normalizer.clip(ba_buf[0]) ; normalizer.clip(ba_buf[1])" := by
+  constructor <;> rfl
+
+/-! ### LA16: the SSE4.1 horizontal kernels of U16x2 (src/convolution/u16x2/sse4.rs)
+
+    One accumulator `[L, A]` of 64-bit lanes started at `1 << (precision - 1)`; four pixels per load, each shuffled into the low
+    halves of the lanes (masks `p0 .. p3` from the source), `_mm_mul_epi32` with `_mm_set1_epi64x(k as i64)`, `_mm_add_epi64`;
+    at most one 2-coefficient step and one last coefficient; both lanes through the portable `Normalizer32::clip`. -/
+
+theorem u16x2_sse4_eq_portable (p : Nat) (row : List Int) (start : Nat) (ks : List Int) :
+    Fir.SimdU16x2.pixel p row start ks
+      = [clip16 (2 ^ (p - 1) + Fir.SimdU16x2.dotLA row 0 ks start) p, clip16 (2 ^ (p - 1) + Fir.SimdU16x2.dotLA row 1 ks start) p] :=
+  Fir.Proofs.U16x2.pixel_eq_portable p row start ks
+
+theorem u16x2_sse4_four_rows_masks :
+    Fir.Gen.u16x2_sse4_four_p0 = Fir.Gen.u16x2_sse4_p0 ∧ Fir.Gen.u16x2_sse4_four_p1 = Fir.Gen.u16x2_sse4_p1 ∧
+    Fir.Gen.u16x2_sse4_four_p2 = Fir.Gen.u16x2_sse4_p2 ∧ Fir.Gen.u16x2_sse4_four_p3 = Fir.Gen.u16x2_sse4_p3 := by
+  refine ⟨?_, ?_, ?_, ?_⟩ <;> decide
+
+theorem u16x2_sse4_source_as_modelled :
+    Fir.Gen.u16x2_sse4_one_row_skeleton = "normalizer.precision() ; _mm_set1_epi64x(half_error) ; chunks_exact(4) ; remainder() ; _mm_set1_epi64x(k[0] as i64) ; _mm_set1_epi64x(k[1] as i64) ; _mm_set1_epi64x(k[2] as i64) ; _mm_set1_epi64x(k[3] as i64) ; simd_utils::loadu_si128(src_row, x) ; _mm_shuffle_epi8(source, p0_shuffle) ; _mm_add_epi64(ll_sum, _mm_mul_epi32(p_i64x2, coeff0_i64x2)) ; _mm_shuffle_epi8(source, p1_shuffle) ; _mm_add_epi64(ll_sum, _mm_mul_epi32(p_i64x2, coeff1_i64x2)) ; _mm_shuffle_epi8(source, p2_shuffle) ; _mm_add_epi64(ll_sum, _mm_mul_epi32(p_i64x2, coeff2_i64x2)) ; _mm_shuffle_epi8(source, p3_shuffle) ; _mm_add_epi64(ll_sum, _mm_mul_epi32(p_i64x2, coeff3_i64x2)) ; chunks_exact(2) ; remainder() ; _mm_set1_epi64x(k[0] as i64) ; _mm_set1_epi64x(k[1] as i64) ; simd_utils::loadl_epi64(src_row, x) ; _mm_shuffle_epi8(source, p0_shuffle) ; _mm_add_epi64(ll_sum, _mm_mul_epi32(p_i64x2, coeff0_i64x2)) ; _mm_shuffle_epi8(source, p1_shuffle) ; _mm_add_epi64(ll_sum, _mm_mul_epi32(p_i64x2, coeff1_i64x2)) ; first() ; _mm_set1_epi64x(k as i64) ; simd_utils::loadl_epi32(src_row, x) ; _mm_shuffle_epi8(source, p0_shuffle) ; _mm_add_epi64(ll_sum, _mm_mul_epi32(p_i64x2, coeff0_i64x2)) ; _mm_storeu_si128(ll_buf.as_mut_ptr() as *mut __m128i, ll_sum) ; normalizer.clip(ll_buf[0]) ; normalizer.clip(ll_buf[1])" ∧
+    Fir.Gen.u16x2_sse4_four_rows_skeleton = "normalizer.precision() ; _mm_set1_epi64x(half_error) ; chunks_exact(4) ; remainder() ; _mm_set1_epi64x(k[0] as i64) ; _mm_set1_epi64x(k[1] as i64) ; _mm_set1_epi64x(k[2] as i64) ; _mm_set1_epi64x(k[3] as i64) ; simd_utils::loadu_si128(src_rows[i], x) ; _mm_shuffle_epi8(source, p0_shuffle) ; _mm_add_epi64(sum, _mm_mul_epi32(p_i64x2, coeff0_i64x2)) ; _mm_shuffle_epi8(source, p1_shuffle) ; _mm_add_epi64(sum, _mm_mul_epi32(p_i64x2, coeff1_i64x2)) ; _mm_shuffle_epi8(source, p2_shuffle) ; _mm_add_epi64(sum, _mm_mul_epi32(p_i64x2, coeff2_i64x2)) ; _mm_shuffle_epi8(source, p3_shuffle) ; _mm_add_epi64(sum, _mm_mul_epi32(p_i64x2, coeff3_i64x2)) ; chunks_exact(2) ; remainder() ; _mm_set1_epi64x(k[0] as i64) ; _mm_set1_epi64x(k[1] as i64) ; simd_utils::loadl_epi64(src_rows[i], x) ; _mm_shuffle_epi8(source, p0_shuffle) ; _mm_add_epi64(sum, _mm_mul_epi32(p_i64x2, coeff0_i64x2)) ; _mm_shuffle_epi8(source, p1_shuffle) ; _mm_add_epi64(sum, _mm_mul_epi32(p_i64x2, coeff1_i64x2)) ; first() ; _mm_set1_epi64x(k as i64) ; simd_utils::loadl_epi32(src_rows[i], x) ; _mm_shuffle_epi8(source, p0_shuffle) ; _mm_add_epi64(ll_sum[i], _mm_mul_epi32(p_i64x2, coeff0_i64x2)) ; _mm_storeu_si128(ll_buf.as_mut_ptr() as *mut __m128i, ll_sum[i]) ; normalizer.clip(ll_buf[0]) ; normalizer.clip(ll_buf[1])" := by
   constructor <;> rfl
 
 end Fir.C02
